@@ -420,6 +420,7 @@ func checkFloors() []string {
 	need("conc:controlled-overlap-verified", run.Scale(4, 30))
 	need("conc:free-cases-judged", run.Scale(250, 60000))
 	need("conc:race-detector-cases", run.Scale(250, 60000))
+	need("conc:dynamic-store", run.Scale(80, 4000))
 	need("stream:legacy-get", run.Scale(60, 3000))
 	need("stream:plain-vs-memory", run.Scale(60, 5000))
 	need("ref:memory-store", run.Scale(60, 5000))
